@@ -20,8 +20,11 @@ def rx_table(ctx):
 
 
 def locus_str(loc, suffix=""):
-    # the operand forms (loc[3], loc[4]) go to the detail: a cell is (operator, left kind, right kind)
-    return "%s(%s,%s)%s" % (loc[0], loc[1], loc[2], suffix)
+    # a cell is (operator, left kind, right kind); an operand that is itself an operator expression is named
+    # (l=+, r=length ...), leaf forms (constant, @, @.k, $.k, @.*) go to the detail
+    leaf = ("const", "@", "$", "@.k", "$.k", "@.*", "$.*", "-")
+    nest = "".join(" %s=%s" % (side, f) for side, f in (("l", loc[3]), ("r", loc[4])) if f not in leaf)
+    return "%s(%s,%s)%s%s" % (loc[0], loc[1], loc[2], nest, suffix)
 
 
 def judge(ctx, cases):
@@ -53,20 +56,36 @@ def judge(ctx, cases):
     for (i, kind, loc), m in merged.items():
         ev = json.loads(lines[i - 1])
         ran = {a for g in ev["o"] for a in g["as"]}
+        rts = {g["rt"] for g in ev["o"] if set(g["as"]) & m["as"]}
+        peers = {a for g in ev["o"] if g["rt"] in rts for a in g["as"]}      # routes for which $ denotes the same document
         case = {"ast": ev["ast"], "elem": ev["elem"], "root": ev["root"]}
         if any(a == "Match.printed" for a in ran):
             case["pr"] = True
         for cls, name in ((lambda a: a not in GEN_ROUTES, "simple"), (lambda a: a in GEN_ROUTES, "gen")):
-            dev = sorted(a for a in m["as"] if cls(a))
+            dev = sorted(a for a in m["as"] if cls(a) and a != "Match.printed")
             if not dev:
                 continue
-            allcls = sorted(a for a in ran if cls(a))
+            allcls = sorted(a for a in peers if cls(a) and a != "Match.printed")
             suffix = "" if dev == allcls else " only:" + ",".join(dev)
             recs.append({"api": "jp.Script[%s data]" % name, "kind": kind, "locus": locus_str(loc, suffix),
                          "witness": {"script": ev["text"], "elem": show(ev["elem"]), "root": show(ev["root"])},
-                         "case": case,
+                         "case": case, "cid": ev.get("cid"), "sz": ev.get("sz"),
                          "detail": {"expected": m["exp"], "got": {0: "not selected", 1: "selected", 2: "panic"}.get(m["got"], m["got"]),
                                     "forms": [loc[3], loc[4]], "routes": sorted(m["as"]), "panic": m["m"] or None}})
+        if "Match.printed" in m["as"] and "Match.built" not in m["as"] and kind != "panic":
+            # the script re-parsed from its own String(): "&&, ||, ! and parentheses combine exactly as the script prints"
+            recs.append({"api": "jp.Script.String", "kind": "printed-form-differs",
+                         "locus": "parent=%s left=%s right=%s" % (loc[0], loc[3], loc[4]),
+                         "witness": {"script": ev["text"], "elem": show(ev["elem"]), "root": show(ev["root"])},
+                         "case": case, "cid": ev.get("cid"), "sz": ev.get("sz"),
+                         "detail": {"expected": m["exp"], "got": m["got"], "routes": ["Match.printed"]}})
+    # nested cases: every sub-expression was run as a case of its own; keep the smallest deviating ones of a tree
+    best = {}
+    for r in recs:
+        if r["cid"]:
+            k = (r["cid"], r["api"], r["kind"])
+            best[k] = min(best.get(k, 10 ** 9), r["sz"])
+    recs = [r for r in recs if not r["cid"] or r["sz"] == best[(r["cid"], r["api"], r["kind"])]]
     return recs
 
 
